@@ -38,6 +38,10 @@ CHECKS = {
          "All ~8 400 lattice values (every whole second/minute/degree seam with +-1e-12 deg, +-1e-9 arcsec, +-half-unit offsets and +-1 ulp, both signs) are pushed through both tuple decompositions and all 56 string variants; the thorough tier repeats this on all ~59 000 states reachable by the C03 BFS.",
          "Real-valued quantifier: lattice, not all floats; the string grammar and the rounding tolerance (half a unit of the requested decimal) are the harness's reading of the statement.",
          "DESIGN.md 3/C04"),
+ "C12": (EX, "exhaustive enumeration: all permutations/input forms of small tables against exact rational polynomials; every ordered limit pair for roots/extrema against the exact interpolant; copy-independence histories of length <= 2",
+         "Every permutation (n <= 5) and input form of 9 abscissa sets x every degree below n is evaluated at every node and 8 abscissae against exact rational arithmetic; root() and minmax() are called on every ordered pair of a 12-14 point limit set (reversed, equal, out-of-table included) on 6 tables and judged by the sign of the exact interpolant; the conjunction helpers on 720 synthetic motions incl. the 0h seam.",
+         "Real-valued quantifier: finite alphabets of tables and limits; tolerance 1e-9 relative as stated.",
+         "DESIGN.md 3/C12"),
 }
 
 NOT_YET = {}
